@@ -310,10 +310,15 @@ class Run:
         et = 'Exception'
         if s.exc is not None:
             e = s.exc
-            if isinstance(e, ast.Call):
-                e = e.func
-            if isinstance(e, ast.Name):
-                et = e.id
+            if isinstance(e, ast.Name) and e.id in self.env:
+                v = self.env[e.id]          # `raise exception` with the exception object passed in (check_true)
+                if isinstance(v, OpaqueV) and v.what.startswith('exc:'):
+                    et = v.what[4:]
+            else:
+                if isinstance(e, ast.Call):
+                    e = e.func
+                if isinstance(e, ast.Name):
+                    et = e.id
         raise PyRaise(et, 'line %d' % s.lineno)
 
     def st_For(self, s):
@@ -416,6 +421,8 @@ class Run:
                     return self.eng.class_attr_value(self, o.cls, attr)
                 if self.spec_mode:
                     raise Unsupported('spec reads undeclared field %s.%s' % (o.cls, attr))
+                if o.cls in specmod.CLASSES and attr not in specmod.class_fields(self.repo, o.cls):
+                    raise PyRaise('AttributeError', "'%s' object has no attribute '%s'" % (o.cls, attr))
                 raise Unsupported('attribute %s of %s object (undeclared field?)' % (attr, o.cls))
             return self.eng.lib.getattr(self, base, o, attr)
         if isinstance(base, ClassRef):
